@@ -18,6 +18,7 @@ import (
 	"net"
 	"os"
 	"path/filepath"
+	"strings"
 	"sync"
 	"time"
 
@@ -289,6 +290,38 @@ func (p *probeCB) PreStopHook(ctx context.Context) func() error { return nil }
 // between this check and the listen that follows), verified free by binding once.
 var portSeq = os.Getpid()*7919 + int(time.Now().UnixNano()%9973)
 
+// listenLocal listens on a loopback port below the ephemeral range (the ephemeral range can be exhausted by TIME_WAIT
+// sockets of other harnesses running on the machine; `:0` then fails with "address already in use").
+func listenLocal() net.Listener {
+	for try := 0; try < 5000; try++ {
+		portSeq += 37
+		p := 20000 + (portSeq % 12000)
+		if p < 0 {
+			p = -p
+		}
+		if ln, err := net.Listen("tcp", fmt.Sprintf("127.0.0.1:%d", p)); err == nil {
+			return ln
+		}
+	}
+	panic("no free loopback port")
+}
+
+// dialLocal retries a loopback connect a few times (transient source-port exhaustion).
+func dialLocal(addr string, timeout time.Duration) (net.Conn, error) {
+	var c net.Conn
+	var err error
+	for try := 0; try < 6; try++ {
+		if c, err = net.DialTimeout("tcp", addr, timeout); err == nil {
+			return c, nil
+		}
+		if !strings.Contains(err.Error(), "cannot assign requested address") && !strings.Contains(err.Error(), "address already in use") {
+			return nil, err
+		}
+		time.Sleep(300 * time.Millisecond)
+	}
+	return nil, err
+}
+
 func freePort() int {
 	for try := 0; try < 2000; try++ {
 		portSeq += 37
@@ -354,7 +387,7 @@ func c11Listener(run *Run) int {
 			time.Sleep(25 * time.Millisecond)
 			// probe
 			acc := false
-			c, err := net.DialTimeout("tcp", addr.String(), 200*time.Millisecond)
+			c, err := dialLocal(addr.String(), 200*time.Millisecond)
 			if err == nil {
 				me := c.LocalAddr().String()
 				for w := 0; w < 12 && !acc; w++ {
